@@ -1107,6 +1107,9 @@ class NPProxy:
             setattr(self, n, p)
             return p
         impl = IMPL.get(n)
+        if impl is not None and getattr(impl, '_always', False):
+            setattr(self, n, impl)       # stubs that decide themselves whether to be the real function
+            return impl
         if impl is not None:
             def f(*a, **k):
                 if not core.active():
